@@ -1199,28 +1199,38 @@ def part_F(rng, tier, V, replay=None):
 
 
 def run(ctx, V):
-    rng = common.rng_for(ctx["seed"], "C07")
     tier = ctx["tier"]
     rp = (ctx.get("replay") or {}).get("case") or {}
     kind = rp.get("kind")
-    cov = {}
+    cov = dict(bbox_decisions=0, filter_tile_calls=0, alias_cases=0, chunk_bounds_checked=0, chunk_sample_points=0,
+               chunk_e2e_runs=0, bounds_refinements=0, box_e2e_runs=0, tan_images=0, tan_e2e_runs=0)
     samples = []
-    a_cov, nontrivial, smp = part_A(common.rng_for(ctx["seed"], "C07", "A"), tier, V, rp if kind == "bbox" and "box" in rp else None)
-    cov.update(a_cov)
-    samples += smp
-    cov.update(part_B(common.rng_for(ctx["seed"], "C07", "B"), tier, V))
-    c_cov, smp = part_C(common.rng_for(ctx["seed"], "C07", "C"), tier, V, rp if kind == "chunks" else None)
-    cov.update(c_cov)
-    samples += smp
-    d_cov, smp = part_D(common.rng_for(ctx["seed"], "C07", "D"), tier, V, rp if kind == "bounds" else None)
-    cov.update(d_cov)
-    samples += smp
-    e_cov, smp = part_E(common.rng_for(ctx["seed"], "C07", "E"), tier, V, rp if kind == "box_e2e" else None)
-    cov.update(e_cov)
-    samples += smp
-    f_cov, smp = part_F(common.rng_for(ctx["seed"], "C07", "F"), tier, V, rp if kind == "tan" else None)
-    cov.update(f_cov)
-    samples += smp
+    nontrivial = set()
+
+    def part(name, fn, *args):
+        """a part that raises does not hide the others: the exception is itself a disagreement"""
+        import traceback
+        try:
+            return fn(common.rng_for(ctx["seed"], "C07", name), tier, V, *args)
+        except Exception as e:  # noqa: BLE001
+            traceback.print_exc()
+            V.disagreement(f"correspondence harness, part {name}", dict(kind="harness", part=name, error=repr(e)),
+                           "part completes", "raised", None)
+            return None
+
+    r = part("A", part_A, rp if kind == "bbox" and "box" in rp else None)
+    if r:
+        cov.update(r[0])
+        nontrivial = r[1]
+        samples += r[2]
+    r = part("B", part_B)
+    if r:
+        cov.update(r)
+    for name, fn, k in (("C", part_C, "chunks"), ("D", part_D, "bounds"), ("E", part_E, "box_e2e"), ("F", part_F, "tan")):
+        r = part(name, fn, rp if kind == k else None)
+        if r:
+            cov.update(r[0])
+            samples += r[1]
     evaluations = (cov["bbox_decisions"] + cov["filter_tile_calls"] + cov["alias_cases"] + cov["chunk_bounds_checked"]
                    + cov["chunk_sample_points"] + cov["chunk_e2e_runs"] + cov["bounds_refinements"]
                    + cov["box_e2e_runs"] + cov["tan_images"] + cov["tan_e2e_runs"])
